@@ -103,8 +103,11 @@ def audit(module, theorems, timeout=900):
         with open(path, "w") as f:
             for m in modules:
                 f.write("import %s\n" % m)
+            f.write("import Lean\nopen Lean Elab Command in\nelab \"#stmt_hash \" id:ident : command => do\n"
+                    "  let n ← liftCoreM <| realizeGlobalConstNoOverloadWithInfo id\n  let c ← getConstInfo n\n"
+                    "  logInfo m!\"STMT {n} {c.type.hash}\"\n")
             for t in names:
-                f.write("#print axioms %s\n" % t)
+                f.write("#print axioms %s\n#stmt_hash %s\n" % (t, t))
         p = subprocess.run(["lake", "env", "lean", path], cwd=LEAN, stdout=subprocess.PIPE, stderr=subprocess.STDOUT,
                            text=True, timeout=timeout)
         return p.returncode, p.stdout
@@ -115,6 +118,12 @@ def audit(module, theorems, timeout=900):
         found[m.group(1)] = [a.strip() for a in m.group(2).split(",") if a.strip()]
     for m in _NOAX_RE.finditer(text):
         found[m.group(1)] = []
+    hashes = dict(re.findall(r"STMT (\S+) (\d+)", out))
+    lock = {}
+    lp = os.path.join(LEAN, "statements.lock")
+    if os.path.exists(lp):
+        with open(lp) as f:
+            lock = json.load(f)
     for t in theorems:
         key = t if t in found else next((k for k in found if k.endswith("." + t) or t.endswith("." + k)), None)
         if key is None:
@@ -122,7 +131,9 @@ def audit(module, theorems, timeout=900):
         else:
             ax = found[key]
             bad = [a for a in ax if a not in ALLOWED_AXIOMS]
-            res[t] = {"status": "bad-axioms" if bad else "ok", "axioms": ax}
+            res[t] = {"status": "bad-axioms" if bad else "ok", "axioms": ax, "statement_hash": hashes.get(t)}
+            if not bad and t in lock and hashes.get(t) is not None and str(lock[t]) != str(hashes.get(t)):
+                res[t]["status"] = "statement-changed"
     try:
         os.remove(path)
     except OSError:
